@@ -13,3 +13,4 @@
 void h_unfull(void) { mi_page_t* page; _mi_page_unfull(page); VC_REACH(); }
 void h_to_full(void) { mi_page_t* page; mi_page_queue_t* pq; mi_page_to_full(page, pq); VC_REACH(); }
 void h_extend_free(void) { g_cap0 = vc_nondet_u16("g_cap0"); mi_heap_t* heap; mi_page_t* page; mi_tld_t* tld; mi_page_extend_free(heap, page, tld); VC_REACH(); }
+void h_malloc_generic(void) { g_gc0 = vc_nondet_u32("g_gc0"); g_f1_null = vc_nondet_bool("g_f1_null"); g_f2_null = vc_nondet_bool("g_f2_null"); mi_heap_t* heap; void* p = _mi_malloc_generic(heap, vc_nondet_size("size"), vc_nondet_bool("zero"), vc_nondet_size("huge_alignment")); VC_REACH(); }
